@@ -114,7 +114,13 @@ def judge(run, rid, facts, desc, kind):
         if [(c, nows(t)) for c, t in g2] != [(c, nows(t)) for c, t in want]:
             missing = [x for x in want if (x[0], nows(x[1])) not in [(c, nows(t)) for c, t in g2]]
             extra = [x for x in g2 if (x[0], nows(x[1])) not in [(c, nows(t)) for c, t in want]]
-            run.oracle_fail("attributes of the re-emitted item: missing %s, unexpected %s" % (missing[:3], extra[:3]), desc)
+            if not missing and not extra:
+                gn, wn = [(c, nows(t)) for c, t in g2], [(c, nows(t)) for c, t in want]
+                k = next(i for i in range(len(wn)) if gn[i] != wn[i])
+                run.oracle_fail("attributes of the re-emitted item come back in another order: position %d holds %s, the source has %s there"
+                                % (k, g2[k], want[k]), desc)
+            else:
+                run.oracle_fail("attributes of the re-emitted item: missing %s, unexpected %s" % (missing[:3], extra[:3]), desc)
     if facts.one("same_twice") != "true":
         run.oracle_fail("expanding the same input twice in one process gives different output", desc)
     return True
